@@ -273,7 +273,7 @@ func TestC04(t *testing.T) {
 	// on failure rapid shrinks the base and the failing position is re-found by enumeration.
 	positions := 0
 	r.t.Run("fault-enum", func(t *testing.T) {
-		setRapidChecks(r.pick(400, 6000))
+		setRapidChecks(r.pick(400, 15000))
 		rapid.Check(t, func(rt *rapid.T) {
 			base := genC04Enum(rt)
 			for _, in := range c04Positions(&base.Base) {
@@ -288,7 +288,7 @@ func TestC04(t *testing.T) {
 	})
 	r.note("fault-enum: every (leaf visit x phase x attempt) event of each failure-free reference run injected in 4 error flavours, plus 'all attempts fail': %d injected runs in this shard", positions)
 	g := wfGen{MaxLeaves: 5, MaxFlows: 4, Actions: []string{"a", "b", ""}, PErr: 60, PExecErr: 400, MaxN: 4, Waits: true, MaxVisits: 3, FuelMax: 10, MaxRuns: 2}
-	rapidPart(r, "rand-multi", r.pick(3000, 40000), g.gen, checkC04)
+	rapidPart(r, "rand-multi", r.pick(3000, 120000), g.gen, checkC04)
 	rapidPart(r, "batch-prep-post", r.pick(2000, 30000), genC04Batch, checkC04Batch)
 }
 
